@@ -150,8 +150,9 @@ def main_dcline():
     """bounded stand-in: AC OPF with a lossy dcline; the reported dcline result is a valid operating point of the dcline model (a power flow with
     the dispatched p_mw reproduces p_to_mw), for both signs of the set point direction"""
     fails = []
-    for L, l0, p0 in ((0., 0., 20.), (5., 0., 20.), (0., 1., 20.), (5., 1., 20.), (4., 0.5, -20.)):
-        net = pp.create_empty_network()
+    for L, l0, p0, sn in ((0., 0., 20., 1.), (5., 0., 20., 1.), (0., 1., 20., 1.), (5., 1., 20., 1.), (4., 0.5, -20., 1.), (2., 0.5, 20., 10.),
+                          (0., 1.5, 20., 100.)):
+        net = pp.create_empty_network(sn_mva=sn)
         b = [pp.create_bus(net, 110., min_vm_pu=0.9, max_vm_pu=1.1) for _ in range(4)]
         pp.create_ext_grid(net, b[0], min_p_mw=-500, max_p_mw=500, min_q_mvar=-500, max_q_mvar=500)
         pp.create_line_from_parameters(net, b[0], b[1], 30., 0.06, 0.3, 10., 1., max_loading_percent=100)
@@ -165,7 +166,7 @@ def main_dcline():
         try:
             pp.runopp(net)
         except Exception as e:
-            print(f"note: OPF with dcline loss_percent={L}, loss_mw={l0}, p_mw={p0}: {type(e).__name__}")
+            print(f"note: OPF with dcline loss_percent={L}, loss_mw={l0}, p_mw={p0}, sn_mva={sn}: {type(e).__name__}")
             continue
         r = net.res_dcline.iloc[0]
         pf = copy.deepcopy(net)
@@ -173,12 +174,64 @@ def main_dcline():
         pp.runpp(pf)
         q = pf.res_dcline.iloc[0]
         if abs(q.p_from_mw - r.p_from_mw) > 1e-4 or abs(q.p_to_mw - r.p_to_mw) > 1e-4:
-            fails.append(f"dcline loss_percent={L}, loss_mw={l0}, set point {p0}: OPF reports p_from = {r.p_from_mw:.5f}, p_to = {r.p_to_mw:.5f}; a power "
+            fails.append(f"dcline loss_percent={L}, loss_mw={l0}, set point {p0}, net.sn_mva={sn}: OPF reports p_from = {r.p_from_mw:.5f}, p_to = {r.p_to_mw:.5f}; a power "
                          f"flow with that dispatch gives p_from = {q.p_from_mw:.5f}, p_to = {q.p_to_mw:.5f}")
     for f in fails:
         print("REPRODUCED:", f)
     if not fails:
         print("not reproduced: dcline results of the OPF are operating points of the dcline model")
+    sys.exit(1 if fails else 0)
+
+
+def main_more():
+    """voltage limits of buses fused by a closed bus-bus switch; non-controllable gens with a scaling factor"""
+    fails = []
+    # (1) bus 2 (limits 0.98 .. 1.02) is fused with the gen bus 3 (0.9 .. 1.1)
+    for numba in (True, False):
+        net = pp.create_empty_network()
+        b = [pp.create_bus(net, 110., min_vm_pu=0.9, max_vm_pu=1.1) for _ in range(4)]
+        net.bus.loc[b[2], ["min_vm_pu", "max_vm_pu"]] = [0.98, 1.02]
+        pp.create_ext_grid(net, b[0], vm_pu=1.0, min_p_mw=-500, max_p_mw=500, min_q_mvar=-500, max_q_mvar=500)
+        pp.create_line_from_parameters(net, b[0], b[1], 40., 0.06, 0.3, 10., 1., max_loading_percent=100)
+        pp.create_line_from_parameters(net, b[1], b[3], 40., 0.06, 0.3, 10., 1., max_loading_percent=100)
+        pp.create_switch(net, b[3], b[2], "b", closed=True)
+        pp.create_gen(net, b[3], p_mw=30., vm_pu=1.05, controllable=True, min_p_mw=0., max_p_mw=80., min_q_mvar=-60., max_q_mvar=60.)
+        pp.create_load(net, b[1], 50., 10.); pp.create_load(net, b[2], 20., 5.)
+        pp.create_poly_cost(net, 0, "ext_grid", cp1_eur_per_mw=50.); pp.create_poly_cost(net, 0, "gen", cp1_eur_per_mw=10., cq1_eur_per_mvar=-1.)
+        try:
+            pp.runopp(net, numba=numba)
+        except Exception as e:
+            print(f"note: OPF with fused buses: {type(e).__name__}")
+            continue
+        vm = net.res_bus.vm_pu
+        for x in net.bus.index:
+            if vm.at[x] > net.bus.max_vm_pu.at[x] + 1e-5 or vm.at[x] < net.bus.min_vm_pu.at[x] - 1e-5:
+                fails.append(f"buses 2 and 3 fused by a closed bus-bus switch (numba={numba}): converged OPF reports vm_pu = {vm.at[x]:.5f} at bus {x} with "
+                             f"limits [{net.bus.min_vm_pu.at[x]}, {net.bus.max_vm_pu.at[x]}]")
+    # (2) a non-controllable gen with scaling 0.5: the OPF result is a power flow result for the OPF dispatch
+    net = pp.create_empty_network()
+    b = [pp.create_bus(net, 110., min_vm_pu=0.9, max_vm_pu=1.1) for _ in range(3)]
+    pp.create_ext_grid(net, b[0], min_p_mw=-500, max_p_mw=500, min_q_mvar=-500, max_q_mvar=500)
+    pp.create_line_from_parameters(net, b[0], b[1], 40., 0.06, 0.3, 10., 1., max_loading_percent=100)
+    pp.create_line_from_parameters(net, b[1], b[2], 40., 0.06, 0.3, 10., 1., max_loading_percent=100)
+    pp.create_gen(net, b[2], p_mw=40., vm_pu=1.01, scaling=0.5, controllable=False, min_p_mw=0., max_p_mw=80., min_q_mvar=-60., max_q_mvar=60.)
+    pp.create_gen(net, b[1], p_mw=10., vm_pu=1.0, controllable=True, min_p_mw=0., max_p_mw=30., min_q_mvar=-60., max_q_mvar=60.)
+    pp.create_load(net, b[1], 50., 10.); pp.create_load(net, b[2], 30., 5.)
+    pp.create_poly_cost(net, 0, "ext_grid", cp1_eur_per_mw=50.); pp.create_poly_cost(net, 1, "gen", cp1_eur_per_mw=60.)
+    pp.runopp(net)
+    pf = copy.deepcopy(net)
+    pf.gen.loc[1, "p_mw"] = net.res_gen.p_mw.at[1]          # the dispatch of the controllable gen
+    pf.gen["vm_pu"] = net.res_gen.vm_pu.values
+    pf.ext_grid["vm_pu"] = net.res_ext_grid.index.map(lambda i: net.res_bus.vm_pu.at[net.ext_grid.bus.at[i]])
+    pp.runpp(pf)
+    if abs(pf.res_gen.p_mw.at[0] - net.res_gen.p_mw.at[0]) > 1e-4 or abs(pf.res_ext_grid.p_mw.at[0] - net.res_ext_grid.p_mw.at[0]) > 1e-3:
+        fails.append(f"non-controllable gen with p_mw = 40, scaling = 0.5: OPF reports p = {net.res_gen.p_mw.at[0]:.4f} (ext_grid "
+                     f"{net.res_ext_grid.p_mw.at[0]:.4f}); a power flow with the OPF dispatch gives p = {pf.res_gen.p_mw.at[0]:.4f} (ext_grid "
+                     f"{pf.res_ext_grid.p_mw.at[0]:.4f})")
+    for f in fails:
+        print("REPRODUCED:", f)
+    if not fails:
+        print("not reproduced: voltage limits of fused buses and fixed set points hold")
     sys.exit(1 if fails else 0)
 
 
